@@ -320,3 +320,8 @@ package task
 //@   preserves $RUNDATA
 //@   nilable result
 //@   ensures result.1 == nil ==> result.0 != nil
+
+// ---- C19: --init never overwrites an existing file ---------------------------------------------------
+//@ func InitTaskfile
+//@   modifies fs_exists, fs_ver
+//@   ensures result.1 == nil ==> !old(fs_exists(result.0))                                            [C19]
